@@ -10,6 +10,15 @@ TEST_CMD = "cd /repo && /venv/bin/python -m pytest -ra -q -p no:cacheprovider --
 
 # id -> (level, technique, text, note, design_ref)
 CHECKS = {
+ "C09": ("model_checking", "TLC case machine spec/Saturation.tla (exact saturated-regime semantics on a magnitude lattice) + replay in both dtypes",
+         "every lattice element / row / label / target: outputs and input gradients finite and within single precision of the specification",
+         "saturated regime only (gaps 0 or >= 20); gaps in (0,20) at large magnitude not decided", "5/C09"),
+ "C14": ("model_checking", "TLC invariant IdentityHolds on spec/Identities.tla (independently written definitions) + differential replay of both implementation forms on every enumerated configuration",
+         "polynomial identities model-checked on the spec; fused vs composed implementation forms compared (values and all operand gradients) on every configuration, incl. transcendental pairs, pooling, Neuron, Sequential",
+         "common domain of both sides; exact-rational operand patterns", "5/C14"),
+ "C15": ("exploration", "TLC case machine spec/Init.tla (exact rational squared scales) + replay observing the generator arguments, plus fixed-seed sample statistics",
+         "every initialiser x shape x gain/mode/nonlinearity/slope: documented scale vs arguments handed to NumPy's generator, frame (identity, shape, dtype, requires_grad); distribution shape sampled",
+         "statistics are fixed-seed with wide margins (outside TLC)", "5/C15"),
  "C02": ("model_checking", "TLC case machine spec/NNCatalog.tla over spec/ConvGeom.tla (polynomial forms with mechanically derived VJPs; named real functions with spec-fixed structure) + replay of every case",
          "every nn case of the geometry / shape / mode grids replayed in both dtypes for every requires-grad subset and basis/negative/generic/ones upstream gradients",
          "real functions and their partials interpreted with mpmath; 2-D geometry grid reduced in quick tier", "5/C02"),
